@@ -90,3 +90,28 @@ Proof. intros. right.
   destruct orc as [|[k|] orc']; [cbn; lia| |cbn; lia].
   destruct (skipn _ (e_rest e)); (eapply Nat.le_trans; [apply IH|cbn; lia]).
 Qed.
+
+(* when the socket accepts again, one drain attempt delivers everything that is pending and drops
+   the write interest *)
+Lemma drain_accept_all : forall q s big extra, queue s = q -> Forall (fun e => length (e_rest e) <= big) q ->
+  queue (fst (drain (S (length q) + extra) s (repeat (Acc big) (length q)))) = []
+  /\ write_interest (fst (drain (S (length q) + extra) s (repeat (Acc big) (length q)))) = false.
+Proof.
+  induction q as [|e q IH]; intros s big extra Hq Hall.
+  - cbn [length repeat plus drain]. rewrite Hq. cbn. split; reflexivity.
+  - cbn [length repeat]. change (S (S (length q)) + extra) with (S (S (length q) + extra)). cbn [drain]. rewrite Hq.
+    pose proof (Forall_inv Hall) as He. cbv beta in He. pose proof (Forall_inv_tail Hall) as Hq'.
+    assert (Hn : Nat.min (Nat.max big 1) (length (e_rest e)) = length (e_rest e)) by lia.
+    rewrite Hn. rewrite skipn_all. apply IH; [reflexivity|exact Hq'].
+Qed.
+
+(* a writable report is never ignored: whatever else the same poll result says about the descriptor,
+   the queue is drained *)
+Lemma writable_never_ignored s rd orc e q :
+  queue s = e :: q -> on_ready true s (Ready rd true) orc = drain_event (mkTS (queue s) (wire s) (settled s) false (sends s)) orc.
+Proof. intros H. unfold on_ready. cbn [andb orb]. rewrite H. reflexivity. Qed.
+
+(* the dispatch before the fix: readable and writable together leave the pending data where it is
+   (and an edge-triggered poll does not report the writable edge again) *)
+Lemma combined_event_lost_before_fix s orc : on_ready false s (Ready true true) orc = (s, orc).
+Proof. reflexivity. Qed.
